@@ -131,7 +131,7 @@ def load_sources(ctx, n_mut_per_file, include_known=True, gen=0, pid=None):
             res.append((name, text, "opgrid"))
         if pid == "C05":
             # liveness grid (see lib/wgen.py): one local through every event sequence x control-flow shape
-            for name, text in wgen.livegrid_programs(random.Random(ctx.seed * 17 + 3), per_shape=(60 if ctx.tier == "thorough" else 12)):
+            for name, text in wgen.livegrid_programs(random.Random(ctx.seed * 17 + 3), per_shape=(None if os.environ.get("VERIF_LIVEGRID") == "all" else 60 if ctx.tier == "thorough" else 12)):
                 res.append((name, text, "livegrid"))
         for k in range(gen):
             res.append(("gen%04d_%d" % (k, ctx.seed), wgen.generate(random.Random(ctx.seed * 100003 + k)), "generated"))
